@@ -251,6 +251,12 @@ func checkC04(c *CaseC04, fl *Fails) {
 		ids := spelledSpatial(c.Boxes, c.Spell)
 		out, err = integrate.MergeSpatialIds(ids, c.H)
 		if err != nil {
+			if c.Spell != 0 {
+				// a library that rejects a non-canonical spelling ("+1", "007", "-0") with an error does not break the
+				// property (it quantifies over valid IDs; only the canonical decimal spelling is certainly one)
+				Count("spelled_input_rejected", 1)
+				return
+			}
 			fl.Add("error", "MergeSpatialIds: %v", err)
 			return
 		}
@@ -271,6 +277,12 @@ func checkC04(c *CaseC04, fl *Fails) {
 	} else {
 		out, err = integrate.MergeExtendedSpatialIds(spelledExt(c.Boxes, c.Spell), c.H, c.V)
 		if err != nil {
+			if c.Spell != 0 {
+				// a library that rejects a non-canonical spelling ("+1", "007", "-0") with an error does not break the
+				// property (it quantifies over valid IDs; only the canonical decimal spelling is certainly one)
+				Count("spelled_input_rejected", 1)
+				return
+			}
 			fl.Add("error", "MergeExtendedSpatialIds: %v", err)
 			return
 		}
